@@ -5,7 +5,7 @@ from mc import strictjson
 import os
 import tempfile
 
-from mc import core, pelgen, impl, clidrv
+from mc import subchunk, core, pelgen, impl, clidrv
 from mc.core import ChunkResult
 
 PROPERTY = 'C10'
@@ -80,7 +80,9 @@ def bounds(tier):
 def plan(tier, seed):
     parts = 4 if tier == 'quick' else 16
     return [{'k': 'plid', 'part': p, 'parts': parts, 'tier': tier} for p in range(parts)] + \
-        [{'k': 'bmc', 'tier': tier}, {'k': 'id', 'tier': tier}, {'k': 'id_junk'}, {'k': 'bmc_junk'}, {'k': 'src'}, {'k': 'srcx'}, {'k': 'perm', 'tier': tier}, {'k': 'subproc'}]
+        [{'k': 'bmc', 'tier': tier}, {'k': 'id', 'tier': tier}, {'k': 'id_junk'}, {'k': 'bmc_junk'}, {'k': 'src'}, {'k': 'srcx'}, {'k': 'perm', 'tier': tier}, {'k': 'subproc'}] + \
+        [dict(c, optimize=True) for c in        # the same under python -O (assertions stripped, __debug__ false)
+         [{'k': 'plid', 'part': 0, 'parts': 4, 'tier': 'quick'}, {'k': 'bmc', 'tier': 'quick'}, {'k': 'id', 'tier': 'quick'}, {'k': 'id_junk'}, {'k': 'bmc_junk'}, {'k': 'src'}]]
 
 
 def build(d, entries=None):
@@ -225,6 +227,9 @@ def _do(res, d, case, step=97):
 
 
 def run_chunk(chunk):
+    routed = subchunk.route(__name__, chunk)
+    if routed is not None:
+        return routed
     res = ChunkResult()
     impl.ensure(False)
     k = chunk['k']
